@@ -498,7 +498,7 @@ def _is_static(fn):
       and fn.decorator_list[0].id == 'staticmethod'
 
 
-def eligible(fn, is_method):
+def eligible(fn, is_method, tail=True):
   a = fn.args
   if is_method and _is_static(fn):
     is_method = False          # no self: binds like a plain function
@@ -530,7 +530,78 @@ def eligible(fn, is_method):
         return False
   if is_method and (not a.args or a.args[0].arg != 'self'):
     return False
+  if not tail:
+    return True
   return _tail_ok(_nest_tail(_strip_doc(fn.body)))
+
+
+def _is_none(e):
+  return e is None or (isinstance(e, ast.Constant) and e.value is None)
+
+
+def verdict_shape(fn, is_method):
+  """`_helper(..)` deciding early: every return gives a constant that is not
+  None, except a final `return None` / falling off the end ("no verdict").
+  The call site `v = _helper(..); if v is not None: return v` is then the
+  helper's statements with its returns being the caller's."""
+  if not eligible(fn, is_method, tail=False):
+    return False
+  body = _strip_doc(fn.body)
+  if body and isinstance(body[-1], ast.Return) and _is_none(body[-1].value):
+    body = body[:-1]
+  rets = [r for s in body for r in ast.walk(s) if isinstance(r, ast.Return)]
+  return bool(rets) and all(isinstance(r.value, ast.Constant) and r.value.value is not None
+                            for r in rets)
+
+
+def _verdict_site(stmts, i):
+  """(name, call) when stmts[i:i+2] is `v = f(..)` / `if v is not None: return v`
+  and v is not read afterwards"""
+  if i + 1 >= len(stmts):
+    return None
+  s, t = stmts[i], stmts[i + 1]
+  if not (isinstance(s, ast.Assign) and len(s.targets) == 1 and isinstance(
+      s.targets[0], ast.Name) and isinstance(s.value, ast.Call)):
+    return None
+  v = s.targets[0].id
+  if not (isinstance(t, ast.If) and not t.orelse and len(t.body) == 1 and isinstance(
+      t.body[0], ast.Return) and isinstance(t.body[0].value, ast.Name) and
+          t.body[0].value.id == v):
+    return None
+  c = t.test
+  if not (isinstance(c, ast.Compare) and len(c.ops) == 1 and isinstance(c.ops[0], ast.IsNot)
+          and isinstance(c.left, ast.Name) and c.left.id == v and _is_none(c.comparators[0])):
+    return None
+  if any(isinstance(n, ast.Name) and n.id == v for r in stmts[i + 2:] for n in ast.walk(r)):
+    return None
+  return v, s.value
+
+
+def _expand_verdict(fn, call, is_method, line):
+  bound = _bind(fn, call, is_method)
+  if bound is None:
+    return None
+  body = copy.deepcopy(_strip_doc(fn.body))
+  if body and isinstance(body[-1], ast.Return) and _is_none(body[-1].value):
+    body = body[:-1]
+  stores = _stores(fn)
+  tag = '__' + fn.name.strip('_')
+  mapping, subst, pre = {}, {}, []
+  for p, a in bound.items():
+    if _simple(a) and p not in stores:
+      subst[p] = a
+    else:
+      mapping[p] = p + tag
+      pre.append(ast.Assign(targets=[ast.Name(id=p + tag, ctx=ast.Store())],
+                            value=copy.deepcopy(a)))
+  for x in stores:
+    mapping.setdefault(x, x + tag)
+  ren = _Rename(mapping, subst)
+  out = pre + [ren.visit(x) for x in body]
+  for x in out:
+    ast.copy_location(x, line)
+    ast.fix_missing_locations(x)
+  return out or [ast.copy_location(ast.Pass(), line)]
 
 
 def gen_shape(fn, is_method):
@@ -1100,6 +1171,7 @@ class _Inliner:
     self.helpers_cls = helpers_cls      # class name -> {name: FunctionDef}
     self.gens_mod = gens_mod or {}      # generator helpers (gen_shape)
     self.gens_cls = gens_cls or {}
+    self.verdicts = None                # (module level, per class) verdict helpers
     self.count = 0
 
   def _gen_callee(self, call, cls):
@@ -1111,24 +1183,38 @@ class _Inliner:
       return self.gens_cls[cls][f.attr], True
     return None, False
 
-  def _callee(self, call, cls):
+  def _callee(self, call, cls, tables=None):
     f = call.func
-    if isinstance(f, ast.Name) and f.id in self.helpers_mod:
-      return self.helpers_mod[f.id], False
+    helpers_mod, helpers_cls = tables or (self.helpers_mod, self.helpers_cls)
+    if isinstance(f, ast.Name) and f.id in helpers_mod:
+      return helpers_mod[f.id], False
     if isinstance(f, ast.Attribute) and isinstance(f.value, ast.Name) and \
-        f.value.id == 'self' and cls is not None and f.attr in self.helpers_cls.get(cls, {}):
-      h = self.helpers_cls[cls][f.attr]
+        f.value.id == 'self' and cls is not None and f.attr in helpers_cls.get(cls, {}):
+      h = helpers_cls[cls][f.attr]
       return h, not _is_static(h)
     # ClassName._helper(...) for a static helper of that class
     if isinstance(f, ast.Attribute) and isinstance(f.value, ast.Name) and \
-        f.attr in self.helpers_cls.get(f.value.id, {}) and _is_static(
-            self.helpers_cls[f.value.id][f.attr]):
-      return self.helpers_cls[f.value.id][f.attr], False
+        f.attr in helpers_cls.get(f.value.id, {}) and _is_static(
+            helpers_cls[f.value.id][f.attr]):
+      return helpers_cls[f.value.id][f.attr], False
     return None, False
 
   def block(self, stmts, cls):
     out = []
-    for s in stmts:
+    skip = False
+    for i, s in enumerate(stmts):
+      if skip:
+        skip = False
+        continue
+      vs = _verdict_site(stmts, i) if self.verdicts else None
+      if vs is not None:
+        fn, is_m = self._callee(vs[1], cls, self.verdicts)
+        rep = _expand_verdict(fn, vs[1], is_m, s) if fn is not None else None
+        if rep is not None:
+          self.count += 1
+          out.extend(self.block(rep, cls))
+          skip = True
+          continue
       rep = self.stmt(s, cls)
       out.extend(rep)
     return out
@@ -1634,6 +1720,8 @@ def _apply_helpers(tree, rel):
   helpers_cls = {}
   gens_mod = {}
   gens_cls = {}
+  verd_mod = {}
+  verd_cls = {}
   # (a reference function that was merely renamed has got its name back in
   # rename_back, so every private function that is still unknown here is new)
   for s in tree.body:
@@ -1643,6 +1731,8 @@ def _apply_helpers(tree, rel):
         helpers_mod[s.name] = s
       elif gen_shape(s, False) or gen_straight(s, False):
         gens_mod[s.name] = s
+      elif verdict_shape(s, False):
+        verd_mod[s.name] = s
     elif isinstance(s, ast.ClassDef):
       for m in s.body:
         if isinstance(m, ast.FunctionDef) and m.name.startswith('_') and \
@@ -1651,9 +1741,14 @@ def _apply_helpers(tree, rel):
             helpers_cls.setdefault(s.name, {})[m.name] = m
           elif gen_shape(m, True) or gen_straight(m, True):
             gens_cls.setdefault(s.name, {})[m.name] = m
-  if not helpers_mod and not helpers_cls and not gens_mod and not gens_cls:
+          elif verdict_shape(m, True):
+            verd_cls.setdefault(s.name, {})[m.name] = m
+  if not helpers_mod and not helpers_cls and not gens_mod and not gens_cls and \
+      not verd_mod and not verd_cls:
     return 0
   inl = _Inliner(helpers_mod, helpers_cls, gens_mod, gens_cls)
+  if verd_mod or verd_cls:
+    inl.verdicts = (verd_mod, verd_cls)
   # helpers may call each other: expand inside helpers first (two rounds)
   for _ in range(2):
     for fn in list(helpers_mod.values()):
@@ -1681,12 +1776,14 @@ def _apply_helpers(tree, rel):
       refs.add(n.value)
   tree.body = [s for s in tree.body
                if not (isinstance(s, ast.FunctionDef) and (
-                   s.name in helpers_mod or s.name in gens_mod) and s.name not in refs)]
+                   s.name in helpers_mod or s.name in gens_mod or s.name in verd_mod)
+                       and s.name not in refs)]
   for s in tree.body:
     if isinstance(s, ast.ClassDef):
       s.body = [m for m in s.body
                 if not (isinstance(m, ast.FunctionDef) and (
-                    m.name in helpers_cls.get(s.name, {}) or m.name in gens_cls.get(s.name, {}))
+                    m.name in helpers_cls.get(s.name, {}) or m.name in gens_cls.get(s.name, {})
+                    or m.name in verd_cls.get(s.name, {}))
                         and m.name not in refs)] or [ast.Pass()]
   ast.fix_missing_locations(tree)
   return inl.count
